@@ -313,6 +313,9 @@ inductive Op where
   /-- `api.SSHSign` with `addUserPublicKey` and `identityCSR`: user, add-user and X.509
       identity certificate in one request -/
   | sshSignFull
+  /-- `api.SSHSign` through a provisioner whose tokens are reusable by design (Kubernetes service
+      accounts: `GetTokenID` is not implemented, nothing is recorded) -/
+  | sshSignReusable
   deriving DecidableEq, Repr
 
 /-- the provisioner's webhooks (numbers of ENRICHING, AUTHORIZING, SCEPCHALLENGE, NOTIFYING
@@ -490,6 +493,7 @@ def stepsOf : Op → Cfg → List Kind
   | .acmeFinalize, c => finalizeHandlerPre ++ updateStatusSteps c ++ finalizeSteps c.ids c
   | .scepEnroll, c => pkiOperationSteps c
   | .sshSignFull, c => authorizeSteps ++ signSSHSteps c ++ signSSHAddUserSteps ++ identitySteps c
+  | .sshSignReusable, c => [.check] ++ signSSHSteps c
 
 /-- the whole request; a provisioner that failed to initialise refuses it first -/
 def steps (op : Op) (c : Cfg) : List Kind := (if c.refused then [Kind.refuse] else []) ++ stepsOf op c
